@@ -131,6 +131,19 @@ Theorem C01_session_rows_reread : forall H, NoDup (map R.s_id H) -> forall l,
 Proof. exact SessionProof.names_roundtrip. Qed.
 Print Assumptions C01_session_rows_reread.
 
+(* the two together, for a command: when the written ids are distinct, the rows a successful command of the domain leaves,
+   re-read against the history, ARE a version table of the domain (the graph is the interned loaded history, its ids are
+   positions of the history) *)
+Theorem C01_session_next_rows_in_domain : forall i ran rows,
+  cmd_pre i = true -> run_command i = COk ran rows -> NoDup (map R.s_id (c_revs i)) ->
+  match resolve_cmd i with
+  | RPlanUp G _ _ _ | RPlanDown G _ _ _ _ =>
+      exists rws, pos_list (c_revs i) rows = Some rws /\ state_okb G rws = true
+  | _ => False
+  end.
+Proof. exact SessionProof.command_rows_reread. Qed.
+Print Assumptions C01_session_next_rows_in_domain.
+
 Definition ex_cmd : cmd_in :=
   mkCmd [R.mkS [97;49;98;50;99]%N [] [] []; R.mkS [98;50;99;51;100]%N [[97;49;98;50;99]%N] [] [[108;97;98;48]%N]; R.mkS [99;51;100;52;101]%N [[97;49;98;50;99]%N] [] []; R.mkS [100;52;101;53;102]%N [[98;50;99;51;100]%N; [99;51;100;52;101]%N] [] []; R.mkS [101;53;102;54;97]%N [] [[98;50;99;51;100]%N] []]
         [([98;50;99;51;100]%N, [100;52;101;53;102]%N)] [] [[99;51;100;52;101]%N] true [104;101;97;100;115]%N.
